@@ -57,7 +57,29 @@ func (e *aolEnv) now(ns int64) {
 	e.s.Emit(fmt.Sprintf("now %d", ns), "-")
 }
 
-func (e *aolEnv) msg(m sdk.Msg) {
+func (e *aolEnv) msg(m sdk.Msg) bool {
+	ok, _ := e.msgOff(m)
+	return ok
+}
+
+// monAcked evaluates the C01 property itself on the implementation: the acknowledged record is still
+// returned with exactly the acknowledged content.  The model evaluates the same predicate on its state.
+func (e *aolEnv) monAcked(a aolAck) {
+	k := e.c.App.AolKeeper
+	op := fmt.Sprintf("mon.c01.acked %s %s %d %s %s %d %s", e.addr(a.owner), hxs(a.topic), a.off, hx(a.key), hx(a.value), a.ts, e.addr(a.writer))
+	e.s.Emit(op, guard(func() string {
+		r, err := k.Record(sdk.WrapSDKContext(e.ctx), &aoltypes.QueryRecordRequest{OwnerAddress: a.owner, TopicName: a.topic, Offset: a.off})
+		if err != nil || r.Record == nil {
+			return "fail"
+		}
+		if string(r.Record.Key) == string(a.key) && string(r.Record.Value) == string(a.value) && r.Record.NanoTimestamp == a.ts && r.Record.WriterAddress == a.writer {
+			return "pass"
+		}
+		return "fail"
+	}))
+}
+
+func (e *aolEnv) msgOff(m sdk.Msg) (okRes bool, offRes uint64) {
 	var op string
 	var run func() string
 	g := sdk.WrapSDKContext(e.ctx)
@@ -93,6 +115,7 @@ func (e *aolEnv) msg(m sdk.Msg) {
 			if err != nil {
 				return errAns(err)
 			}
+			offRes = r.Offset
 			return fmt.Sprintf("ok owner=%s topic=%s offset=%d", hxs(r.OwnerAddress), hxs(r.TopicName), r.Offset)
 		}
 	default:
@@ -107,6 +130,7 @@ func (e *aolEnv) msg(m sdk.Msg) {
 		write()
 	}
 	e.s.Emit(op, ans)
+	return strings.HasPrefix(ans, "ok"), offRes
 }
 
 func pageStr(p *query.PageRequest) string {
@@ -359,46 +383,91 @@ func genPage(rng *rand.Rand, lastKeys [][]byte) *query.PageRequest {
 	return p
 }
 
+type aolAck struct {
+	owner, topic string
+	off          uint64
+	key, value   []byte
+	ts           int64
+	writer       string
+}
+
 func aolHistory(e *aolEnv, rng *rand.Rand, p aolPools, steps int) {
 	e.reset()
 	now := int64(1700000000000000000)
 	e.now(now)
 	var nextKeys [][]byte
+	// what the harness believes exists (only used to aim the generator; never part of the verdict)
+	type ot struct{ o, t string }
+	var topics []ot
+	writers := map[ot][]string{}
+	var acked []aolAck
+	pickOT := func() ot {
+		if len(topics) > 0 && rng.Intn(10) < 7 {
+			return topics[rng.Intn(len(topics))]
+		}
+		return ot{p.addr(rng), p.topic(rng)}
+	}
+	pickW := func(k ot) string {
+		if ws := writers[k]; len(ws) > 0 && rng.Intn(10) < 7 {
+			return ws[rng.Intn(len(ws))]
+		}
+		return p.addr(rng)
+	}
 	for i := 0; i < steps; i++ {
 		if rng.Intn(6) == 0 {
 			now += int64(1 + rng.Intn(5000))
 			e.now(now)
 		}
 		switch r := rng.Intn(20); {
-		case r < 4:
-			e.msg(&aoltypes.MsgCreateTopicRequest{TopicName: p.topic(rng), Description: string(smallBytes(rng)), OwnerAddress: p.addr(rng)})
-		case r < 8:
-			e.msg(&aoltypes.MsgAddWriterRequest{TopicName: p.topic(rng), Moniker: []string{"", "m", "mon.1"}[rng.Intn(3)], Description: string(smallBytes(rng)), WriterAddress: p.addr(rng), OwnerAddress: p.addr(rng)})
-		case r < 10:
-			e.msg(&aoltypes.MsgDeleteWriterRequest{TopicName: p.topic(rng), WriterAddress: p.addr(rng), OwnerAddress: p.addr(rng)})
+		case r < 3:
+			k := ot{p.addr(rng), p.topic(rng)}
+			if e.msg(&aoltypes.MsgCreateTopicRequest{TopicName: k.t, Description: string(smallBytes(rng)), OwnerAddress: k.o}) {
+				topics = append(topics, k)
+			}
+		case r < 7:
+			k := pickOT()
+			w := p.addr(rng)
+			if e.msg(&aoltypes.MsgAddWriterRequest{TopicName: k.t, Moniker: []string{"", "m", "mon.1"}[rng.Intn(3)], Description: string(smallBytes(rng)), WriterAddress: w, OwnerAddress: k.o}) {
+				writers[k] = append(writers[k], w)
+			}
+		case r < 9:
+			k := pickOT()
+			e.msg(&aoltypes.MsgDeleteWriterRequest{TopicName: k.t, WriterAddress: pickW(k), OwnerAddress: k.o})
 		case r < 15:
 			fp := ""
 			if rng.Intn(2) == 0 {
 				fp = p.addr(rng)
 			}
-			e.msg(&aoltypes.MsgAddRecordRequest{TopicName: p.topic(rng), Key: smallBytes(rng), Value: smallBytes(rng), WriterAddress: p.addr(rng), OwnerAddress: p.addr(rng), FeePayerAddress: fp})
+			k := pickOT()
+			m := &aoltypes.MsgAddRecordRequest{TopicName: k.t, Key: smallBytes(rng), Value: smallBytes(rng), WriterAddress: pickW(k), OwnerAddress: k.o, FeePayerAddress: fp}
+			if ok, off := e.msgOff(m); ok {
+				acked = append(acked, aolAck{k.o, k.t, off, m.Key, m.Value, now, m.WriterAddress})
+			}
 		case r == 15:
-			e.qRecord(p.addr(rng), p.topic(rng), uint64(rng.Intn(4)))
+			k := pickOT()
+			e.qRecord(k.o, k.t, uint64(rng.Intn(4)))
 		case r == 16:
-			e.qTopic(p.addr(rng), p.topic(rng))
+			k := pickOT()
+			e.qTopic(k.o, k.t)
 		case r == 17:
-			e.qWriter(p.addr(rng), p.topic(rng), p.addr(rng))
+			k := pickOT()
+			e.qWriter(k.o, k.t, pickW(k))
 		case r == 18:
-			_, nk, _ := e.qTopics(p.addr(rng), genPage(rng, nextKeys))
+			_, nk, _ := e.qTopics(pickOT().o, genPage(rng, nextKeys))
 			if len(nk) > 0 {
 				nextKeys = append(nextKeys, nk)
 			}
 		default:
-			_, nk, _ := e.qWriters(p.addr(rng), p.topic(rng), genPage(rng, nextKeys))
+			k := pickOT()
+			_, nk, _ := e.qWriters(k.o, k.t, genPage(rng, nextKeys))
 			if len(nk) > 0 {
 				nextKeys = append(nextKeys, nk)
 			}
 		}
+	}
+	// monitor C01 on the implementation: every acknowledged record still answers with its content
+	for _, a := range acked {
+		e.monAcked(a)
 	}
 	e.dump()
 	// full walks of every listing with several page sizes (C13): the harness follows next_key itself
@@ -497,6 +566,10 @@ func aolReplayLine(e *aolEnv, l string) {
 		e.now(ns)
 	case f[0] == "aol.dump":
 		e.dump()
+	case f[0] == "mon.c01.acked":
+		off, _ := strconv.ParseUint(f[3], 10, 64)
+		ts, _ := strconv.ParseInt(f[6], 10, 64)
+		e.monAcked(aolAck{u(1), u(2), off, unhx(f[4]), unhx(f[5]), ts, u(7)})
 	case f[0] == "aol.msg":
 		switch f[1] {
 		case "createTopic":
